@@ -3,6 +3,9 @@ in which build/CPU configurations, and how many generated cases per tier."""
 
 ALL4 = ["default", "noavx2", "purego", "force32bit"]
 B3 = ["default", "purego", "force32bit"]
+# thorough tier: also a real 32-bit target (GOARCH=386, see CONFIGS in ./check)
+ALL4T = {"quick": ALL4, "thorough": ALL4 + ["386"]}
+ALL4Q = {"quick": ALL4 + ["386"], "thorough": ALL4 + ["386"]}
 
 def T(quick, thorough, **kw):
     d = {"quick": quick, "thorough": thorough}
